@@ -500,6 +500,15 @@ CONTRACTS = [
                "NM": "all(NM(result, n) == NM(self, n) for n in V(self))", "weighted": "weighted(result) == weighted(self)",
                "HM": "HM(result) == HM(self)"},
       properties=["C05"]),
+    # ------------------------------------------------------------------ neighbours (C01, C08)
+    C("get_neighbors", params={"node": "Node", "order": "Opt[Int]", "size": "Opt[Int]"}, result="Set[Int]", pure=True,
+      locals={"neigh": "Set[Int]"},
+      requires={"wf": "wf(self)"},
+      raises={"ValueError": "node not in V(self) or (order is not None and size is not None)"},
+      ensures={"result": "all((m in result) == (m != node and any(k in E(self) and node in k and m in k and sel(self, k, order, size, False) for k in Tuple)) for m in Node)"},
+      invariants={0: {"neigh": "all((m in neigh) == any(count(_done0, k) >= 1 and m in k for k in Tuple) for m in Node)"},
+                  1: {"neigh": "all((m in neigh) == any(count(_done1, k) >= 1 and m in k for k in Tuple) for m in Node)"}},
+      properties=["C01", "C08"]),
 ]
 
 
